@@ -175,6 +175,31 @@ def run(ctx):
                     ctx.ok("C14-R2", "b_k <- (1+beta)*b_k for k in 2..len", cm.loc_of(st["span"]))
                 else:
                     ctx.fail("C14-R2", PF, "b_k update", "b[%s] <- %s over range %s, expected (1+beta)*b_k for k in 2..len" % (show(idx)[-20:], pol, [show(x) for x in r[:2]] if r else None), cm.loc_of(st["span"]))
+        # closure form: coefficients.iter_mut().skip(2).for_each(|b| *b *= 1 + beta)
+        from ..expr import resolve_upvars
+        for fbb, ft in b.calls():
+            fc = ft["callee"]
+            if fc["k"] != "fndef" or not cm.callee_name(fc).endswith("Iterator::for_each") or len(ft["args"]) != 2:
+                continue
+            sk = eb.at(fbb).op(ft["args"][0])
+            clo = eb.op(ft["args"][1])
+            if not (sk[0] == "call" and sk[1].endswith("Iterator::skip") and "mc2b(self)" in show(sk[2][0]) and clo[0] == "agg" and clo[1].startswith("closure:")):
+                continue
+            cb = p.bodies.get(clo[1][len("closure:"):])
+            if cb is None:
+                continue
+            ceb = ExprBuilder(cb)
+            csts = [x for x in stores(cb, ceb) if x[4][0] == "arg" and x[4][1] == 2]
+            for cbb, ci, cst, ctgt, croot, cchain, cval in csts:
+                cval = resolve_upvars(p, cb, cval)
+                pol = to_poly(cval, lambda e, ctgt=ctgt: ("OLD",) if canon(e) == canon(ctgt) else None)
+                coeff_stores.append((fbb, ("skip",)))
+                seen["_bk_bb"] = fbb
+                if len(csts) == 1 and sk[2][1][0] == "c" and sk[2][1][1] == 2 and pol == Poly.atom(("OLD",)) * (Poly.const(1) + beta):
+                    seen["bk"] = True
+                    ctx.ok("C14-R2", "b_k <- (1+beta)*b_k for every element after the first two (iter_mut().skip(2).for_each)", cm.loc_of(cst["span"]))
+                else:
+                    ctx.fail("C14-R2", PF, "b_k update", "element-wise update %s over skip(%s), expected (1+beta)*b_k over skip(2)" % (pol, show(sk[2][1])), cm.loc_of(cst["span"]))
         if "_b1_bb" in seen and "_bk_bb" in seen:
             b1b, bkb = seen["_b1_bb"], seen["_bk_bb"]
             if b1b != bkb and b.can_reach(b1b, bkb) and not b.can_reach(bkb, b1b):
